@@ -7,6 +7,7 @@ import (
 	"encoding/asn1"
 	"errors"
 	"fmt"
+	"math/bits"
 	"reflect"
 )
 
@@ -157,9 +158,15 @@ func NewKeyUsage(critical bool, flags KeyUsage) pkix.Extension {
 	content := make([]byte, 1)
 	content[0] = uint8(flags & 0xFE) //lowest bit must be zero
 
+	//DER: a named bit list ends with its last set bit
+	bitLength := 8 - bits.TrailingZeros8(content[0])
+	if bitLength == 0 {
+		content = content[:0]
+	}
+
 	bs := asn1.BitString{
 		Bytes:     content,
-		BitLength: 7,
+		BitLength: bitLength,
 	}
 
 	//disard error since we control the data
